@@ -305,7 +305,19 @@ static void run(Family *const *fams, const unsigned count, const bool withMinusO
 extern "C" void c25_names(void) { static Family *const f[] = {colon, name}; run(f, 2, true); }
 extern "C" void c25_lines(void) { static Family *const f[] = {value, eol, fold, fold2}; run(f, 4); }
 extern "C" void c25_ends(void) { static Family *const f[] = {head, tail, any}; run(f, 3); }
-extern "C" void c25_framing(void) { static Family *const f[] = {framing, dup}; run(f, 2); }
+// a fold at the EDGE of a framing field's value: directly after the colon ("N:" CRLF b "10" CRLF, b = SP/HT makes the second line a
+// continuation) or a trailing continuation line of whitespace only ("N: 10" CRLF b b CRLF); the trimming of the value must not hide it
+static void framingEdge(const Setting &s)
+{
+    static const Labels lab = {"framingEdge-accepted", "framingEdge-rejected"};
+    static const char *names[3] = {"Content-Length", "Transfer-Encoding", "cONTENT-lENGTH"};
+    uint8_t in[MAXN];
+    unsigned n = put(in, 0, names[vf_concretize(vf_range(0, 2, "name"))]);
+    if (vf_concretize(vf_range(0, 1, "edge"))) n = put(in, n, ": 10\r\n\x01\x01\r\nX: y\r\n");
+    else n = put(in, n, ":\r\n\x01" "10\r\nX: y\r\n");
+    check(in, n, s.owner, s.relaxed, lab);
+}
+extern "C" void c25_framing(void) { static Family *const f[] = {framing, dup, framingEdge}; run(f, 3); }
 
 // KNOWN FINDING C25-reply-ws-before-colon: reply header fields with whitespace before the colon are accepted (stripped)
 extern "C" void c25_known_reply_ws_colon(void)
